@@ -60,7 +60,9 @@ def run_demo(wt, placed):
             for n in names:
                 tests += re.findall(r'^func (Test\w+)', open(os.path.join(wt, d, n)).read(), re.M)
             pat = '^(' + '|'.join(tests) + ')$' if tests else '.'
-            rc, out = sh("go test -vet=off -count=1 -run '%s' ./%s" % (pat, d or '.'), cwd=wt, timeout=900)
+            # a demonstration may need the race detector (it says so in its first lines: "needs: -race" / "-race")
+            race = any('-race' in ''.join(open(os.path.join(wt, d, n), errors='replace').readlines()[:8]) for n in names)
+            rc, out = sh("go test %s-vet=off -count=1 -run '%s' ./%s" % ('-race ' if race else '', pat, d or '.'), cwd=wt, timeout=900)
         else:
             rc, out = sh("go run ./%s" % d, cwd=wt, timeout=900)
         out_all += out
